@@ -175,6 +175,8 @@ def process_case(draw, kinds=KINDS, models=("NRTL", "UNIQUAC"), removal=(1e-6, 0
         if case["amount"] >= 1:
             case["amount"] = int(round(case["amount"]))
         case["int_dt"] = True  # and a whole number of hours per step (a Python int) when the step is at least an hour
+    elif draw(st.integers(0, 5)) == 0:
+        case["int_dt"] = True  # whole hours as a Python int with otherwise float inputs
     if kind.startswith("nonideal"):
         case["curves"] = draw(curve_set())
         case["orders"] = {"n1": draw(st.integers(0, 2)), "m1": draw(st.integers(0, 1)), "n2": draw(st.integers(0, 2)), "m2": draw(st.integers(0, 1))}
